@@ -33,7 +33,53 @@ def mkmsg(i, ln):
 LENS = (0, 2, 3, 7, 50, 300, 1000, 2047, 2048, 4090, 4095, 4096, 4097, 5000, 8000, 8185)
 
 
+FAILMSG = 'Eh?'
+
+
+def gen_vmsg(rng, tier, i):
+    """the driver's own messages (the configured failure message goes through add_vmessage(), the formatted twin of
+    add_message()) at chosen places of the output ring, its last cells among them; every send succeeds, so the place of a byte
+    in the ring is the number of bytes written before it"""
+    p = Plan()
+    # (a telnet port: there the driver parses commands itself and answers a verb nobody takes; it also queues twelve bytes
+    # of negotiation at the start and three bytes of newline echo for every line it receives)
+    p.file('mcfg.h', mcfg({}))
+    p.cfg('Port', '4000:telnet')
+    p.cfg('MaxEvaluationCost', 5000000)
+    p.cfg('DefaultFailMsg', FAILMSG)
+    p.opt('epoll_seed', rng.randint(1, 1 << 30))
+    p.meta['vmsg'] = True
+    p.cycle(connect(0, 0))
+    p.cycle(send(0, 'do name u0\r\n'))
+    ECHO = 3
+    total = len(TELNET_INIT) + ECHO; mid = 0
+    for _ in range(rng.randint(1, 4)):
+        # the failure message's newline (CR LF) is to start in cell `at` of the ring
+        at = rng.choice((4095, 4095, 4094, 4096 - len(FAILMSG) - 2, 0, 1, rng.randint(0, 4095)))
+        need = (at - len(FAILMSG) - ECHO - total) % CAP
+        if need < 60: need += CAP
+        while need > 0:
+            mid += 1
+            ln = min(need, rng.choice((700, 1000, 1500)))
+            # the message as the client sees it is longer than `ln` by its newlines: take the longest that still fits
+            while ln > 2 and len(mkmsg(mid, ln).replace('\n', '\r\n')) + ECHO > need: ln -= 1
+            if need - len(mkmsg(mid, ln).replace('\n', '\r\n')) - ECHO in range(1, 12):
+                ln = max(2, ln - 12)           # (leave room for a last message: the shortest one has a dozen bytes with its echo)
+            m = len(mkmsg(mid, ln).replace('\n', '\r\n')) + ECHO
+            if m > need: break                 # (cannot be hit exactly: this round's message lands a few cells early)
+            p.cycle(send(0, 'do out %d %d tell\r\n' % (mid, ln))); p.idle(1)
+            need -= m; total += m
+        p.cycle(send(0, 'df\r\n')); p.idle(1)
+        total += ECHO + len(FAILMSG) + 2
+        if rng.random() < 0.5:
+            mid += 1; p.cycle(send(0, 'do out %d %d tell\r\n' % (mid, 40))); p.idle(1)
+            total += ECHO + len(mkmsg(mid, 40).replace('\n', '\r\n'))
+    p.idle(6)
+    return p
+
+
 def gen(rng, tier, i):
+    if rng.random() < 0.05: return gen_vmsg(rng, tier, i)
     p = Plan()
     kind = rng.choice(('ascii', 'ascii', 'telnet'))
     defs = {'USER_PROCESS_INPUT': '1'}
@@ -187,6 +233,8 @@ def check(plan, res):
                 item = [mkmsg(int(w[2]), int(w[3])).replace('\n', '\r\n').encode(), 'message %s (%s)' % (w[2], w[4]), idx, None]
                 exp.setdefault(alias[w[1]], []).append(item)
                 pending.setdefault(w[2], []).append(item)      # shout: one message, several recipients
+            elif w[0] == 'DFAIL' and len(w) > 1 and w[1] in alias:
+                exp.setdefault(alias[w[1]], []).append([(FAILMSG + '\r\n').encode(), 'default failure message', idx, idx])
             elif w[0] == 'OUTDONE' and w[1] in pending:
                 for it in pending[w[1]]: it[3] = idx
         elif e.kind == 'accept' and telnet:
